@@ -49,3 +49,5 @@ Print Assumptions C14_alloc_bound_partial_bytes.
 Check C14_alloc_bound_partial_program : forall O tr bs a v r a',
   t_prog O tr bs a = TOk v r a' -> a' <= a + (1 + clvm_per_byte) * (nlen bs - nlen r) /\ nlen r <= nlen bs.
 Print Assumptions C14_alloc_bound_partial_program.
+Check C14_vec_limit_is_translated : MiB2 = vec_prealloc_limit_bytes.
+Print Assumptions C14_vec_limit_is_translated.
